@@ -74,7 +74,7 @@ func validatorOf(p *core.Prog, prop string) *ssa.Function {
 // (`outline: 1px solid invert` was dropped although `outline-color: invert` is accepted.)
 func c08BorderSideColours(c *core.Check) {
 	p := c.Prog
-	r := c.Rule("R24", "the border-side expander accepts as a colour what the colour longhand accepts: for each of border-top/right/bottom/left-color, column-rule-color and outline-color, _expandBorderSide calls the longhand's validator (validators table) or compares a keyword with every word that validator compares one with", 6)
+	r := c.Rule("R24", "the border-side expander accepts as a colour what the colour longhand accepts: for each of border-top/right/bottom/left-color, column-rule-color and outline-color, _expandBorderSide calls the longhand's validator (validators table) or compares a keyword with every word that validator compares one with", 4)
 	exp := p.Fn("css/validation", "_expandBorderSide")
 	if exp == nil {
 		r.Anchor("css/validation._expandBorderSide")
